@@ -79,6 +79,10 @@ pub proof fn lemma_slice_array_eq_u8<const N: usize>(a: &[u8], b: &[u8; N])
 }
 
 // ---- A4: u32::checked_shr
+// A18: Range::is_empty is `!(start < end)`
+pub uninterp spec fn range_is_empty_spec<Idx>(r: &core::ops::Range<Idx>) -> bool;
+pub assume_specification<Idx>[core::ops::Range::<Idx>::is_empty](r: &core::ops::Range<Idx>) -> (b: bool) where Idx: core::cmp::PartialOrd + core::cmp::PartialOrd,
+    ensures b == range_is_empty_spec(r);
 pub assume_specification [u32::checked_shr] (x: u32, n: u32) -> (r: Option<u32>)
     ensures n < 32 ==> r == Some(x >> n), n >= 32 ==> r is None;
 
@@ -136,6 +140,8 @@ pub open spec fn name_is(strs: Seq<u8>, off: int, name: &str) -> bool {
 
 // ---- A1: every slice has at most isize::MAX elements (language invariant)
 pub mod ax { use vstd::prelude::*; use vstd::std_specs::cmp::PartialEqSpec;
+pub broadcast axiom fn axiom_range_is_empty_usize(r: &core::ops::Range<usize>)
+    ensures #[trigger] crate::vp::range_is_empty_spec::<usize>(r) == !(r.start < r.end);
 pub broadcast proof fn lemma_subrange_subrange(s: Seq<u8>, a: int, b: int, c: int, d: int)
     requires 0 <= a <= b <= s.len(), 0 <= c <= d <= b - a
     ensures #[trigger] s.subrange(a, b).subrange(c, d) == s.subrange(a + c, a + d)
